@@ -194,7 +194,7 @@ def apply_ref(op, D, union_default, dup=1):
                 dels += inst(d, mu, dn, lambda l: BNode())
             if i is not None:
                 memo = {}
-                ins += inst(i, mu, dn, lambda l: memo.setdefault(l, BNode(f"fresh{counter[0]}_{l[2:]}")))
+                ins += inst(i, mu, dn, lambda l: memo[l] if l in memo else memo.setdefault(l, BNode()))
                 counter[0] += 1
         for gn, t in dels:
             D.get(gn, set()).discard(t)
